@@ -943,5 +943,6 @@ func init() {
 		x.Add(&Family{Name: "long-chat-lines", Quick: 150, Thor: 3000, Run: runLongChatLines})
 		x.Add(&Family{Name: "login-agreement", Quick: 40, Thor: 800, Run: runLoginAgreement})
 		x.Add(&Family{Name: "slow-reader", Quick: 2, Thor: 16, Run: runSlowReader})
+		c14WaveD(x)
 	}
 }
